@@ -36,7 +36,8 @@ def seeded():
     for mf in sorted(glob.glob(os.path.join(ROOT, "seeded", "*", "meta.json"))):
         d = json.load(open(mf))
         out.append("| %s | %s | %s | %s | %s |" % (os.path.basename(os.path.dirname(mf)), d["property"], esc(d["needs"])[:260],
-                                              esc(d.get("caught_by", "")), esc(d.get("reported", ""))[:260]))
+                                              esc(d.get("caught_by", "")),
+                                              (esc(d.get("reported", ""))[:200] + ((" — " + esc(d["note"])) if d.get("note") else ""))))
     return "\n".join(out)
 
 def splice(text, tag, body):
